@@ -60,7 +60,14 @@ impl SocketSend for ReqSocket {
             if let Some(mut peer) = self.backend.peers.get_async(&next_peer_id).await {
                 self.backend.round_robin.push(next_peer_id.clone());
                 message.push_front(Bytes::new());
-                peer.send_queue.send(Message::Message(message)).await?;
+                let sent = peer.send_queue.send(Message::Message(message)).await;
+                drop(peer);
+                if let Err(e) = sent {
+                    // The connection is dead: forget the peer so that the rotation does not
+                    // keep coming back to it (its stale id is skipped above).
+                    self.backend.peer_disconnected(&next_peer_id);
+                    return Err(e.into());
+                }
                 self.current_request = Some(next_peer_id);
                 return Ok(());
             }
@@ -78,7 +85,13 @@ impl SocketRecv for ReqSocket {
             Some(peer_id) => {
                 if let Some(mut peer) = self.backend.peers.get_async(&peer_id).await {
                     let reply = peer.recv_queue.next().await;
+                    drop(peer);
                     self.current_request = None;
+                    if !matches!(reply, Some(Ok(_))) {
+                        // The connection ended or failed: forget the peer, otherwise it stays
+                        // in the rotation forever.
+                        self.backend.peer_disconnected(&peer_id);
+                    }
                     match reply {
                         Some(Ok(Message::Message(mut m))) => {
                             if m.len() < 2 {
